@@ -2058,6 +2058,159 @@ def check_boxed_case(ctx, case):
 
 
 # ------------------------------------------------------------------------------------------------
+# a lifted scope together with a DESCENDANT of it at depth >= 2 (intermediate scopes not lifted themselves):
+# function-form nn.scan / nn.vmap over `self` with a sub-sub-module passed into the body, and core lift.scan /
+# lift.vmap over the scope tree (root, root/a/b[/c]).  Oracle: the explicit loop (init paths and values, then
+# apply of the lifted program on the variables the loop made); a raise on the lifted side only is a violation.
+# ------------------------------------------------------------------------------------------------
+
+NEST_NAMES = ['enc', 'emb', 'mid', 'leaf', 'outer', 'blk', 'a', 'b', 'c']
+
+
+def _nested_linen(names, d, val, form):
+  import functools
+
+  def mk(level):
+    if level == len(names) - 1:
+      return lambda: _P(val=val, d=d)
+    child, nm = mk(level + 1), names[level + 1]
+
+    def setup(self):
+      setattr(self, nm, child())
+
+    cls = type(f'Lvl{level}', (nn.Module,), {'setup': setup})
+    return lambda: cls()
+
+  first = mk(0)
+
+  def setup(self):
+    setattr(self, names[0], first())
+
+  leaf_of = lambda self: functools.reduce(getattr, names, self)
+
+  def call_scan(self, c, xs):
+    def body(mdl, c, x, emb):
+      h = emb(x)
+      return c * 2 + h, h - c
+
+    return nn.scan(body, variable_broadcast='params', split_rngs={'params': False}, in_axes=(0, nn.broadcast))(self, c, xs, leaf_of(self))
+
+  def call_vmap(self, c, xs):
+    f = lambda mdl, x, emb: emb(x) + x
+    return c, nn.vmap(f, variable_axes={'params': None}, split_rngs={'params': False}, in_axes=(0, None))(self, xs, leaf_of(self))
+
+  def call_loop(self, c, xs):
+    emb, ys = leaf_of(self), []
+    for t in range(xs.shape[0]):
+      h = emb(xs[t])
+      if form == 'scan':
+        c, y = c * 2 + h, h - c
+      else:
+        y = h + xs[t]
+      ys.append(y)
+    return c, jnp.stack(ys)
+
+  Lifted = type('NestLifted', (nn.Module,), {'setup': setup, '__call__': call_scan if form == 'scan' else call_vmap})
+  Loop = type('NestLoop', (nn.Module,), {'setup': setup, '__call__': call_loop})
+  return Lifted, Loop
+
+
+def _nested_core(names, form):
+  def leaf_scope(scope):
+    lf = scope
+    for nm in names:
+      lf = lf.push(nm)
+    return lf
+
+  def lifted(scope, xs):
+    leaf = leaf_scope(scope)
+    if form == 'scan':
+      leaf.variable('state', 'count', lambda: jnp.zeros((), jnp.int32))
+
+      def body(scopes, c, x):
+        cnt = scopes[1].variable('state', 'count', lambda: jnp.zeros((), jnp.int32))
+        cnt.value = cnt.value * 2 + x
+        return c + cnt.value, cnt.value
+
+      return lift.scan(body, variable_carry='state')((scope, leaf), jnp.zeros((), jnp.int32), xs)
+
+    def f(scopes, x):
+      w = scopes[1].variable('state', 'w', lambda: jnp.full((), 3, jnp.int32))
+      return w.value * x
+
+    return jnp.zeros((), jnp.int32), lift.vmap(f, variable_axes={'state': None}, split_rngs={})((scope, leaf), xs)
+
+  def loop(scope, xs):
+    leaf = leaf_scope(scope)
+    c, ys = jnp.zeros((), jnp.int32), []
+    if form == 'scan':
+      cnt = leaf.variable('state', 'count', lambda: jnp.zeros((), jnp.int32))
+      for t in range(xs.shape[0]):
+        cnt.value = cnt.value * 2 + xs[t]
+        c, ys = c + cnt.value, ys + [cnt.value]
+    else:
+      w = leaf.variable('state', 'w', lambda: jnp.full((), 3, jnp.int32))
+      ys = [w.value * xs[t] for t in range(xs.shape[0])]
+    return c, jnp.stack(ys)
+
+  return lifted, loop
+
+
+def gen_nested_case(rng):
+  depth = rng.choice([2, 2, 3])
+  names = rng.sample(NEST_NAMES, depth)
+  if names == names[::-1]:
+    names = ['enc', 'emb'][:depth] + ['leaf'] * (depth - 2)
+  return {'kind': 'nested', 'api': rng.choice(['linen', 'core']), 'form': rng.choice(['scan', 'vmap']), 'names': names,
+          'd': 2, 'T': rng.choice([2, 3]), 'val': rng.randrange(1, 4), 'vseed': rng.randrange(10 ** 6)}
+
+
+def check_nested_case(ctx, case):
+  case = {k: v for k, v in case.items() if k != 'origin'}
+  ctx.case(case)
+  ctx.count('nested_descendant_family', f"{case['api']}/{case['form']}/depth {len(case['names'])}")
+  r = np.random.RandomState(case['vseed'])
+  T, d = case['T'], case['d']
+  tj = lambda t: _tree_json(jax.tree_util.tree_map(np.asarray, flax_core.unfreeze(t) if hasattr(t, 'items') else t))
+
+  def attempt(fn):
+    try:
+      return ('ok', fn())
+    except Exception as e:
+      return classify(e)
+
+  if case['api'] == 'linen':
+    Lifted, Loop = _nested_linen(case['names'], d, case['val'], case['form'])
+    xs = jnp.asarray(r.randint(-2, 3, size=(T, d)).astype(np.int32))
+    c0 = jnp.asarray(r.randint(-2, 3, size=(d,)).astype(np.int32))
+    key = jax.random.key(0)
+    ref_init = attempt(lambda: Loop().init_with_output(key, c0, xs))
+    got_init = attempt(lambda: Lifted().init_with_output(key, c0, xs))
+    ref_apply = attempt(lambda: Loop().apply(ref_init[1][1], c0, xs)) if ref_init[0] == 'ok' else ('err', 'skip')
+    got_apply = attempt(lambda: Lifted().apply(ref_init[1][1], c0, xs)) if ref_init[0] == 'ok' else ('err', 'skip')
+  else:
+    lifted, loop = _nested_core(case['names'], case['form'])
+    xs = jnp.asarray(r.randint(-2, 3, size=(T,)).astype(np.int32))
+    key = jax.random.key(0)
+    ref_init = attempt(lambda: flax_core.init(loop)(key, xs))
+    got_init = attempt(lambda: flax_core.init(lifted)(key, xs))
+    ref_apply = attempt(lambda: flax_core.apply(loop, mutable='state')(ref_init[1][1], xs)) if ref_init[0] == 'ok' else ('err', 'skip')
+    got_apply = attempt(lambda: flax_core.apply(lifted, mutable='state')(ref_init[1][1], xs)) if ref_init[0] == 'ok' else ('err', 'skip')
+  _housekeeping()
+  where = f"{'nn' if case['api'] == 'linen' else 'lift'}.{case['form']} with the descendant {'/'.join(case['names'])} of the lifted scope"
+  for phase, ref, got in (('init', ref_init, got_init), ('apply', ref_apply, got_apply)):
+    if ref[0] != 'ok':
+      continue
+    if got[0] != 'ok':
+      ctx.violation(f"{case['form']}-nested-raises-where-loop-works", f'{where}: {phase} raised {got[1]}; the explicit loop works', case)
+      return
+    a, b = tj(got[1]), tj(ref[1])
+    if a != b:
+      ctx.violation(f"{case['form']}-nested-differs-from-loop", f'{where}: {phase} differs from the explicit loop (outputs / variable paths / values): lifted={json.dumps(a)[:300]} loop={json.dumps(b)[:300]}', case)
+      return
+
+
+# ------------------------------------------------------------------------------------------------
 # entry points
 # ------------------------------------------------------------------------------------------------
 
@@ -2194,6 +2347,8 @@ def run(ctx):
     check_sibling_case(ctx, gen_sibling_case(rng))
   for _ in range(10 if not thorough else 120):
     check_boxed_case(ctx, gen_boxed_case(rng))
+  for _ in range(8 if not thorough else 100):
+    check_nested_case(ctx, gen_nested_case(rng))
   n_scan, n_vmap, n_remat, n_wild = (62, 32, 14, 32) if not thorough else (1200, 600, 200, 600)
   cases = []
   for _ in range(n_scan):
@@ -2242,6 +2397,8 @@ def _run_case(ctx, drv, obj):
     check_sibling_case(ctx, case)
   elif kind == 'boxed':
     check_boxed_case(ctx, case)
+  elif kind == 'nested':
+    check_nested_case(ctx, case)
   else:
     ctx.notes.append(f'unknown corpus case kind {kind}')
 
